@@ -55,7 +55,7 @@ CLAIMED = {
  "C10": ("exploration",
          "round-trip property over rapid-generated message programs within the parser's feature set: build -> render -> EMLToMsgFromReader -> compare getters with the generator's model -> render again -> independent MIME reader compares leaves and checks header sections for duplicated fields",
          "Generated-input search with a model/round-trip oracle; sampled.",
-         "A file's declared content type and chosen transfer encoding are not required to survive; descriptions and caller-chosen content-ids are outside the parser's feature set; 7bit/8bit contents are generated legal for those encodings.",
+         "Subject and display names are compared exactly except for white space at their two ends; the parser's collapsing of a white-space run that the writer folded inside (net/textproto) is a recorded known finding (parser-collapses-ws-at-fold), a writer-side loss is not excused. A file's declared content type and chosen transfer encoding are not required to survive; descriptions and caller-chosen content-ids are outside the parser's feature set; 7bit/8bit contents are generated legal for those encodings.",
          "DESIGN.md section 3, C10"),
  "C11": ("exploration",
          "rapid-generated message programs (one in five S/MIME-signed) x generated histories of render operations (WriteTo, Write, NewReader, UpdateReader incl. partly-read readers, WriteToFile, WriteToTempFile, Send to the reference server, failed renders by sink or producer fault); metamorphic oracle: every successful output is byte-identical to the first",
